@@ -315,6 +315,10 @@ def main(argv):
     violations, undecided, notes = [], [], []
     known_hit = []
     # every component runs even when another one is undecided: a violation found elsewhere must still be reported
+    # development aid (never used by the registered commands): VERIF_ONLY_UNITS=U3,U1 restricts the run to those Verus units
+    only = [x for x in os.environ.get("VERIF_ONLY_UNITS", "").split(",") if x]
+    if only:
+        cfg = dict(cfg, verus_units=[u for u in cfg.get("verus_units", []) if u in only], kani=[], rac=[])
     for u in cfg.get("verus_units", []):
         try:
             comps.append(("verus", verus_unit(u, tier, seed)))
